@@ -11,6 +11,17 @@ BASE_NOTE = ("Trusted base: CPython's ast parser, the engines under /verif/sa (p
              "conditions of the property - and not the value-level behaviour; see DESIGN.md for what is not decided.")
 
 CLAIMS = {
+    "C14": dict(
+        text=("Static rules over the zone-data codec: (R14.1) for all 8 composite writer/reader pairs the ordered sequences of primitive operations (in Python evaluation order, loops unrolled "
+              "0-3 times, optional parts both ways, nested composites as tokens) are equal as sets; (R14.3) compact millisecond encoding: each arm's guard is exact divisibility by the constant "
+              "it divides by, every emitted byte is proved in [0,255] (header bits clear of data), and the reader's (flag, multiplier) table equals the writer's (header, divisor) table; "
+              "(R14.4) transition encoding: every emission site is reachable under the abstract interpreter (no dead compact form), each form's written value lies in the range from which the reader "
+              "decodes that form, payloads are exact quotients of the guarded quantity and all forms derive from the accessor the raw form stores; (R14.5) varint/fixed-width helpers use mirrored "
+              "masks and shifts, the string length prefix is len() of the bytes written, count guards; (R14.6) optional buffered integers are tested with `is None`. "
+              "Decides reader/writer agreement of structure and constants, not the zig-zag algebra nor byte equality with reference files."),
+        design_ref="DESIGN.md section 3, C14",
+        technique="static analysis: sequence-language comparison of reader/writer ASTs + interval abstract interpretation of the encoders with path conditions",
+    ),
     "C12": dict(
         text=("Static rules over the listed value types: (R12.1) order-domain evaluation: every rich comparison, compare_to, equals, min and max of the 10 ordered "
               "types is abstractly evaluated by the interpreter on EVERY component-wise ordering of the type's key atoms (3^n orderings, following delegation chains "
